@@ -95,12 +95,37 @@ def run(chk):
         site = "jinns.loss._LossODE:SystemLossODE.evaluate" if eq_type == 'ODE' else "jinns.loss._LossPDE:SystemLossPDE.evaluate"
         chk.run("C20.R5", site, {"loss": eq_type}, go, construct=f"insertion-order invariance[{eq_type}]")
 
+    # ---- R7: a weight is a Python float eagerly (and when the loss is closed over) but a 0-d array when the loss object is an
+    #          argument of a jitted function (solve passes it through the loop carry): both representations must give the
+    #          same formulas, i.e. no branch may be decided by the Python type of a weight
+    chk.rule("C20.R7", "loss values do not depend on whether a weight is a Python float or a 0-d array (eager / closed-over vs "
+                       "loss passed through jit)", floor=3)
+    import numpy as np
+    from ..alg import AT, Poly
+    for eq_type, names in all_terms.items():
+        def go(eq_type=eq_type, names=names):
+            res = []
+            for rep, wv in (("float", 2.0), ("int", 2), ("0-d array", AT((), np.array(Poly.const(2), dtype=object)))):
+                S = SingleLoss(E, eq_type, 'PINN', d=2, m_u=2, m_res=2, terms=names, weight_value=wv)
+                total, terms = S.evaluate()
+                res.append((rep, {k: canon(scalar_of(v, k)) for k, v in terms.items()}))
+            for rep, other in res[1:]:
+                for k in res[0][1]:
+                    if res[0][1][k] != other[k]:
+                        raise Violation(k, f"with the weight given as {rep}: {other[k]}", f"as a Python float: {res[0][1][k]}")
+            return "identical formulas for float, int and 0-d array weights"
+        site = {"ODE": "jinns.loss._LossODE:LossODE", "statio_PDE": "jinns.loss._LossPDE:LossPDEStatio",
+                "nonstatio_PDE": "jinns.loss._LossPDE:LossPDENonStatio"}[eq_type] + ".evaluate"
+        chk.run("C20.R7", site, {"loss": eq_type, "terms": list(names)}, go, construct=f"weight representation invariance[{eq_type}]")
+
     # ---- R4: generator indices cannot overflow int32 (eager python ints vs int32 under jit)
     chk.rule("C20.R4", "initial batch indices: index + batch size <= int32 max for every batch size (no eager / jit "
                        "discrepancy through integer wrap-around), first draw reshuffles", floor=20)
     from ..genenv import GenEnv
     from .C09 import run_initial_index
     run_initial_index(chk, GenEnv(chk.repo), "C20.R4")
+    from .C09 import run_first_draw
+    run_first_draw(chk, chk.repo, "C20.R4")
 
     # ---- R6: drawing a batch performs no write into the generator (frozen instances)
     chk.rule("C20.R6", "get_batch of every generator kind on a frozen generator performs no write into it", floor=6)
